@@ -1,6 +1,6 @@
 """Per-property wording for MANIFEST.json."""
 
-HOOK_COMMITS = []
+HOOK_COMMITS = ["173a0a4"]
 
 TEXT = {
     "C01": {
@@ -47,6 +47,16 @@ TEXT = {
         "technique": "property-based testing (rapid) with the same deterministic scheduler: children's OK / COUNT replies released in generated interleavings with several requests (and repeated ids) in flight; aggregation model checked per step and at quiescence",
         "level_text": "Exploration: per step an aggregated reply must appear exactly when the last child answered the oldest open request of that id (verdict = all accepted, rejection text starts with the first rejecting child's reason, COUNT = max); at quiescence #OK(id) == #EVENT(id).",
         "level_note": "Trusted: the aggregation model in merge_test.go. 'First rejecting child' accepted as lowest index or earliest in time.",
+    },
+    "C06": {
+        "technique": "stateful property-based testing (rapid): generated batch histories inserted through insertEvents, generated filter lists through queryEvent, judged by a reference model (newest version per address, author-scoped tombstones) with the tie-tolerant query oracle; metamorphic re-split of batch boundaries into a second database",
+        "level_text": "Exploration: hundreds of histories per run x queries after every batch against an independent model of stored/live events; every returned event compared in all seven fields.",
+        "level_note": "Trusted: harness/model/sqlitemodel.go + query oracle. Assumes no 32-bit xxHash key collision within a case; d-less addressable events, replaceable-address references and MaxLimit are outside the statement and not generated; equal-timestamp versions may resolve either way.",
+    },
+    "C14": {
+        "technique": "fault injection by enumeration: a wrapping database/sql driver fails driver call n (begin / prepare / exec of each statement kind / commit, also connection-level exec) for EVERY n of a generated batch; battery of queries before/after; retry and repeat; generated close/reopen placements on file-backed databases",
+        "level_text": "Fault enumeration: for each generated (history, batch) the failing call index is enumerated exhaustively; atomicity = battery answers unchanged after each failure, idempotence = unchanged after repeat, restart-stability = unchanged after reopen and model-equal afterwards.",
+        "level_note": "Faults are injected at the driver API before the call executes (commit failure rolls back like go-sqlite3); no torn-page / power-loss model. Batteries compare unlimited queries exactly (as sets with content digests) and all queries against the model.",
     },
     "C10": {
         "technique": "property-based testing (rapid): grammar-generated wire texts with near-miss mutations against a no-panic / completeness / decode-encode-decode oracle, value round trips for all 14 types, repository corpus replay; native go fuzz target in the thorough tier",
